@@ -324,6 +324,15 @@ Vendors == {"v1", "v2"}
 Conforms == {NoStr, "c1", "c2"}
 AddAttachmentA == \E dst \in Reg, src \in Full, rp \in Full, v \in Vendors, c \in Conforms :
               Call("add_attachment", dst, <<src, rp, v, c>>, AddAssertionEnv(reg[src], AttachmentAssn(reg[rp], v, c)))
+(* the Attachments container (attachments.rs): a digest-keyed collection, added to an envelope at once *)
+AttSpecs == {<<rp, v, c>> : rp \in Full, v \in {"v1"}, c \in {NoStr, "c1"}}
+AttachContainerA == \E dst \in Reg, src \in Full : \E L \in {<<a>> : a \in AttSpecs} \cup {<<a, b>> : a \in AttSpecs, b \in AttSpecs} :
+              Call("attach_container", dst, <<src, L>>,
+                   Ok(FoldAdd(reg[src], {AttachmentAssn(reg[L[i][1]], L[i][2], L[i][3]) : i \in 1..Len(L)})))
+ObsContainer == \E src \in Full :
+              Observe("obs_container", <<src>>,
+                      LET r == Attachments(reg[src], NoStr, NoStr) IN
+                      IF IsOk(r) THEN Ok(<<"set", {Dg(a) : a \in Val(r)}>>) ELSE r)
 (* malformed attachment assertions (one part removed / duplicated / altered) *)
 BadAttachment(payload, kind) ==
   LET good == AttachmentAssn(payload, "v1", "c1") IN
@@ -406,6 +415,10 @@ ObsStructure == \E src \in Full : Observe("obs_structure", <<src>>, StructureFac
 ObsWalk == \E src \in Full :
               \/ Observe("obs_walk", <<src, FALSE>>, WalkStructure(reg[src], 0, "None", NoParent))
               \/ Observe("obs_walk", <<src, TRUE>>, WalkTree(reg[src], 0, NoParent))
+(* tree_format: one line per visited element: indentation by level, short id, edge label, summary *)
+ObsTreeFormat == \E src \in Full :
+              \/ Observe("obs_tree_format", <<src, FALSE>>, WalkStructure(reg[src], 0, "None", NoParent))
+              \/ Observe("obs_tree_format", <<src, TRUE>>, WalkTree(reg[src], 0, NoParent))
 ObsDigests == \E src \in Full, k \in 0..(MaxSize + 1) :
               /\ k <= Depth(reg[src]) + 2
               /\ Observe("obs_digests", <<src, k>>, <<"set", DigestsUpTo(reg[src], k)>>)
@@ -432,7 +445,7 @@ ObsCompare == \E r1 \in Full, r2 \in Full :
                        [ equivalent |-> Equivalent(reg[r1], reg[r2]),
                          identical  |-> Identical(reg[r1], reg[r2]),
                          img1 |-> StructImage(reg[r1]), img2 |-> StructImage(reg[r2]) ])
-ObserveFam == ObsStructure \/ ObsWalk \/ ObsDigests \/ ObsLookup \/ ObsExtract
+ObserveFam == ObsStructure \/ ObsWalk \/ ObsTreeFormat \/ ObsDigests \/ ObsLookup \/ ObsExtract
 
 Fam(f, A) == Len(hist) < Len(Phases) /\ f \in Phases[Len(hist) + 1] /\ A
 
